@@ -234,6 +234,7 @@ fn value_ok(a: &ArgSpec, v: &[u8]) -> bool {
         Vp::Os => true,
         Vp::Default | Vp::Str => s.is_ok(),
         Vp::NonEmpty => s.map(|x| !x.is_empty()).unwrap_or(false),
+        Vp::PathBuf => !v.is_empty(),
         Vp::U8 | Vp::U8New => s.ok().and_then(|x| x.parse::<u8>().ok()).is_some(),
         Vp::I64 => s.ok().and_then(|x| x.parse::<i64>().ok()).is_some(),
         Vp::Bool => matches!(s, Ok("true") | Ok("false")),
